@@ -24,7 +24,7 @@ vars == <<hist, pc, loads, live, files, nextid, v_emit>>
 
 Loaders == <<"string", "memory", "fs">>
 Kinds == <<"ok", "syn0", "syn1", "syn2", "syn3", "syn5", "syn8", "lexerr", "runtime", "missing", "incsyn", "dir", "incdir",
-          "extuse", "extusealias", "lexuni", "opsplit">>   \* opsplit: after a syntax error, two-word operators whose words are apart by more than one blank; dir: the name is a directory; extuse*: a template that extends a parent and whose use fails at run time; lexuni: a non-ASCII letter where an expression is expected
+          "extuse", "extusealias", "lexuni", "opsplit", "bigtail">>   \* bigtail: a syntax error followed by 16 MB of source the parser never asks for (a tokeniser that reads on after the call has returned is still a goroutine held by the library); opsplit: after a syntax error, two-word operators whose words are apart by more than one blank; dir: the name is a directory; extuse*: a template that extends a parent and whose use fails at run time; lexuni: a non-ASCII letter where an expression is expected
 Apis == <<"execute", "parse">>
 NOp == Len(Loaders) * Len(Kinds) * Len(Apis)
 Op(j) == [loader |-> Loaders[(j % 3) + 1], kind |-> Kinds[((j \div 3) % Len(Kinds)) + 1], api |-> Apis[((j \div (3 * Len(Kinds))) % 2) + 1]]
